@@ -10,6 +10,7 @@
 #undef protected
 #include <nstd/Debug.hpp>
 #include <stdarg.h>
+#include <sanitizer/asan_interface.h>
 
 // the assertions of Map.hpp/List.hpp stay active; their only link dependency is provided here
 // (src/Debug.cpp would drag in String, Process, ...)
@@ -157,6 +158,54 @@ static int slotIndexOf(const Callback::MemberFuncPtr& p)
 
 static Em* em[NE];
 static Li* li[NL];
+
+// Two ways to create / destroy the objects.  Heap (`reset`): `new` / `delete`; ASan keeps freed blocks in
+// quarantine, so a re-created object practically never gets the address of its predecessor.  In place
+// (`reuse`): every variable has its own storage, the object is constructed there with placement new and
+// the storage is poisoned after the destructor ran - a re-created object has EXACTLY the address of its
+// destroyed predecessor (stale `Emitter*` keys and `Listener*` receivers then compare equal to the new
+// object), and any access between destruction and re-creation is still an ASan report.
+static bool inPlace;
+static long long emStore[NE][(sizeof(Em) + 7) / 8];
+static long long liStore[NL][(sizeof(Li) + 7) / 8];
+
+static Em* newEm(int i)
+{
+  if(!inPlace)
+    return new Em(i);
+  ASAN_UNPOISON_MEMORY_REGION(emStore[i], sizeof(Em));
+  return new(emStore[i]) Em(i);
+}
+
+static Li* newLi(int i)
+{
+  if(!inPlace)
+    return new Li(i);
+  ASAN_UNPOISON_MEMORY_REGION(liStore[i], sizeof(Li));
+  return new(liStore[i]) Li(i);
+}
+
+static void delEm(Em* p)
+{
+  if((void*)p >= (void*)emStore && (void*)p < (void*)(emStore + NE))
+  {
+    p->~Em();
+    ASAN_POISON_MEMORY_REGION(p, sizeof(Em));
+  }
+  else
+    delete p;
+}
+
+static void delLi(Li* p)
+{
+  if((void*)p >= (void*)liStore && (void*)p < (void*)(liStore + NL))
+  {
+    p->~Li();
+    ASAN_POISON_MEMORY_REGION(p, sizeof(Li));
+  }
+  else
+    delete p;
+}
 static const void* emAddr[NE]; // kept after delete: only compared, never dereferenced
 static const void* liAddr[NL];
 
@@ -184,7 +233,7 @@ static void doAct(const Act& a)
       Li* p = li[a.l];
       li[a.l] = 0;
       liAddr[a.l] = 0;
-      delete p;
+      delLi(p);
     }
     break;
   case 'E':
@@ -192,20 +241,20 @@ static void doAct(const Act& a)
     {
       Em* p = em[a.e];
       em[a.e] = 0;
-      delete p;
+      delEm(p);
     }
     break;
   case 'n':
     if(!li[a.l])
     {
-      li[a.l] = new Li(a.l);
+      li[a.l] = newLi(a.l);
       liAddr[a.l] = static_cast<Callback::Listener*>(li[a.l]);
     }
     break;
   case 'w':
     if(!em[a.e])
     {
-      em[a.e] = new Em(a.e);
+      em[a.e] = newEm(a.e);
       emAddr[a.e] = static_cast<Callback::Emitter*>(em[a.e]);
       // the allocator may hand out the address of a destroyed emitter again: that variable's
       // remembered address no longer identifies the old object
@@ -230,28 +279,29 @@ static void runSlot(int l, int s, int v)
     doAct(script[l][s][idx][i]);
 }
 
-static void resetAll()
+static void resetAll(bool inPlaceMode)
 {
   for(int l = 0; l < NL; ++l)
     if(li[l])
     {
-      delete li[l];
+      delLi(li[l]);
       li[l] = 0;
     }
   for(int e = 0; e < NE; ++e)
     if(em[e])
     {
-      delete em[e];
+      delEm(em[e]);
       em[e] = 0;
     }
+  inPlace = inPlaceMode;
   for(int e = 0; e < NE; ++e)
   {
-    em[e] = new Em(e);
+    em[e] = newEm(e);
     emAddr[e] = static_cast<Callback::Emitter*>(em[e]);
   }
   for(int l = 0; l < NL; ++l)
   {
-    li[l] = new Li(l);
+    li[l] = newLi(l);
     liAddr[l] = static_cast<Callback::Listener*>(li[l]);
   }
   memset(scriptLen, 0, sizeof(scriptLen));
@@ -430,7 +480,7 @@ static void bad()
 int main()
 {
   static HxLine l;
-  resetAll();
+  resetAll(false);
   while(hxRead(l))
   {
     Act a;
@@ -444,9 +494,10 @@ int main()
         bad();
       continue;
     }
-    if(hxIs(l, "reset", 0))
+    if(hxIs(l, "reset", 0) || hxIs(l, "reuse", 0))
     {
-      resetAll();
+      // `reuse` = `reset` with the objects constructed in place from now on
+      resetAll(l.tok[0][2] == 'u');
       printf("ok");
       hxEndLine();
       continue;
@@ -536,13 +587,13 @@ int main()
   for(int l2 = 0; l2 < NL; ++l2)
     if(li[l2])
     {
-      delete li[l2];
+      delLi(li[l2]);
       li[l2] = 0;
     }
   for(int e = 0; e < NE; ++e)
     if(em[e])
     {
-      delete em[e];
+      delEm(em[e]);
       em[e] = 0;
     }
   return 0;
